@@ -182,4 +182,15 @@ theorem enumDef_other_property (nodes : List ENode) (pre post : List (Nat × Nat
         simp [h1, h2]
     rw [hskip]
 
+
+/-- **no Enumeration node, nothing to do**: on a graph that holds no node named `Enumeration` (a document
+    set loaded without the base document) the transformation succeeds and returns the table unchanged —
+    construction of such a graph therefore succeeds exactly when its references are closed (C11) -/
+theorem no_enumeration_noop (nodes : List ENode) (refs : List (Nat × Nat × Nat)) (hp : Option Nat)
+    (h : nodes.any (fun n => decide (n.browse = kEnumeration)) = false) :
+    transformEnums nodes refs hp = .ok nodes := by
+  unfold transformEnums enumTypeIds
+  simp [h]
+
+
 end Opcua.C17
